@@ -174,6 +174,29 @@ def run(ctx):
     settings['TAG_HASH_FILENAMES'] = hash_only
     wdb = database.WhisperDatabase(settings)
     cdb = database.CeresDatabase(settings)
+    if hash_only and hasattr(wdb, '_getFilesystemPath'):
+      # history: the daemon was restarted with TAG_HASH_FILENAMES switched on; a file with the old readable name is still
+      # there and moving it fails (another instance moved it first).  Whatever exists() does about that, the mapping of
+      # every OTHER name stays what it is.
+      old_name = 'mig.cpu;host=a;dc=b'
+      try:
+        oldp = wdb._getFilesystemPath(old_name, False)
+        if (os.path.realpath(os.path.normpath(oldp)) + os.sep).startswith(root + os.sep):
+          os.makedirs(os.path.dirname(oldp), exist_ok=True)
+          open(oldp, 'w').close()
+          real_rename = database.os.rename
+
+          def failing_rename(a, b):
+            raise OSError(2, 'No such file or directory')
+          database.os.rename = failing_rename
+          try:
+            wdb.exists(old_name)
+          except OSError:
+            pass
+          finally:
+            database.os.rename = real_rename
+      except (AttributeError, TypeError):
+        pass
     for k, name in enumerate(names):
       if hi == 1 and ';' not in name and k % 7:
         continue          # TAG_HASH_FILENAMES only matters for tagged names: sample the others
